@@ -109,10 +109,7 @@ Theorem C02_reported_path_resolves_partial :
     match pb_coords d l n with RCoords _ _ _ path _ => path | _ => "" end = build_orig l
     /\ exists p, prepare (S f) (build_orig l) = Ok p
                  /\ get_required lit re_search nstr vstr kw_handler creator p d = ([pb_coords d l n], Done).
-Proof.
-  exact (fun lit re nstr vstr kw cr d l n f Hl Hs =>
-           conj (pb_coords_path d l n Hl) (resolve_query_orig lit re nstr vstr kw cr d l n f Hl Hs)).
-Qed.
+Proof. exact reported_path_loop. Qed.
 Print Assumptions C02_reported_path_resolves_partial.
 
 (* str() of the reported path after its separator was set to either notation
@@ -152,11 +149,7 @@ Theorem C02_any_result_resolves_partial :
     lookup d l = Some n -> pb_safe Dot d l = true ->
     exists p, prepare (S f) path = Ok p
               /\ get_required lit re_search nstr vstr kw_handler creator p d = ([pb_coords d l n], Done).
-Proof.
-  exact (fun lit re nstr vstr kw cr d l n f x par rf path anc _ Ep Hl Hs =>
-           eq_ind_r (fun t => exists p, prepare (S f) t = Ok p /\ _ p d = _)
-                    (resolve_query_orig lit re nstr vstr kw cr d l n f Hl Hs) Ep).
-Qed.
+Proof. exact any_result_resolves. Qed.
 Print Assumptions C02_any_result_resolves_partial.
 
 (* escape_path_section writes a key in the form [wr]: a back-slash doubled, a
@@ -164,7 +157,7 @@ Print Assumptions C02_any_result_resolves_partial.
 Theorem C02_escape_section_written :
   forall (sp : sep) (k : string),
     pb_no_bs_before ["\"%char] k = true -> escape_path_section k (sep_char sp) = wr (sec_set sp) false k.
-Proof. exact (fun sp k H => escape_section_wr sp k (eq_trans (okb_no_bs_before _ k) H)). Qed.
+Proof. exact escape_section_written. Qed.
 Print Assumptions C02_escape_section_written.
 
 (* ---- non-vacuity: a key containing EVERY escapable character (back-slash, dot,
